@@ -123,3 +123,26 @@ func VP_C01_Idempotent() {
 	}
 	zzvp.Done()
 }
+
+// VP_C01_Blocks: objects whose '<kind> <length>\\0<bytes>' text is exactly one or two blocks of 64 KiB (and one byte
+// around them): mostly fixed bytes, the first and the last byte free; stored, read back, compared.
+func VP_C01_Blocks() {
+	g := vpGoit()
+	total := []int{65536, 131072, 32768}[zzvp.Choose(3)] + zzvp.Choose(3) - 1
+	hdr := len("blob ") + len(vpDec(total)) + 1
+	n := total - hdr
+	if len(vpDec(n)) != len(vpDec(total)) {
+		n = total - (len("blob ") + len(vpDec(n)) + 1)
+	}
+	data := make([]byte, n)
+	for i := range data {
+		data[i] = byte(i)
+	}
+	data[0] = zzvp.Bytes("first", 1, "")[0]
+	data[n-1] = zzvp.Bytes("last", 1, "")[0]
+	o, err := NewObject(BlobObject, data)
+	zzvp.Assert(err == nil && o.Write(g) == nil, "storing a large object succeeds")
+	back, err := GetObject(g, o.Hash)
+	zzvp.Assert(err == nil && back != nil && back.Type == BlobObject && back.Size == n && string(back.Data) == string(data), "a stored object comes back with the same kind and exactly the same bytes")
+	zzvp.Done()
+}
